@@ -90,7 +90,14 @@ class Finding:
 
     @property
     def key(self):
-        return (self.cls, self.smode, self.kind, self.inner, self.detail)
+        return (self.cls, self.kind.split('@')[0] if '/' in self.kind else self.kind, self.detail, self.bucket)
+
+    @property
+    def bucket(self):
+        """size class of the size the blamed widget was handed: fixed = (), tiny = a dimension <= 3, ordinary = all > 3"""
+        if not self.size:
+            return "fixed"
+        return "tiny" if min(self.size) <= 3 else "ordinary"
 
     def __repr__(self):
         return f"<Finding {self.key} path={self.path} size={self.size} focus={self.focus}>"
@@ -378,7 +385,7 @@ def _candidates(recipe):
             yield T.replace_at(recipe, p, dict(n, default=None))
 
 
-def shrink(env, recipe, f, budget=600):
+def shrink(env, recipe, f, budget=300):
     """-> (recipe, finding) minimal-ish witness with the same key as f"""
     key = f.key
     size, focus = f.size, f.focus
@@ -413,140 +420,32 @@ def shrink(env, recipe, f, budget=600):
     return recipe, f
 
 
-def _axis_class(name, failing, allv):
-    failing, allv = sorted(set(failing)), sorted(set(allv))
-    if failing == allv:
-        return None
-    if failing[-1] <= 3:
-        return f"{name}<=3"
-    return f"{name}:some"
+def mech_kind(f):
+    """failure kind + raise site (raise kinds) or violated clause (others); the phase marker @rows()/@pack() is dropped
+    when a raise site is present (the site names the mechanism), @content() is kept (no site)"""
+    k = f.kind
+    if k.startswith("raise:") and "/" in k:
+        head, site = k.rsplit("/", 1)
+        head = head.split("@")[0]
+        return f"{head}/{site}"
+    return k
 
 
-def size_class(env, recipe, f):
-    """sweep the witness over every size of its sizing mode and both focus values.  Two size classes: 'tiny' = every
-    failing size has a dimension <= 3 (degenerate sizes only), 'ordinary' = it also fails at a size whose dimensions are
-    all > 3;  plus 'focus' when it fails only with focus=True."""
-    rmode = RC.MODE_BY_LEN[len(f.root_size)]
-    fail = []
-    for size in SIZES[rmode]:
-        for focus in FOCI:
-            st, f2 = probe(env, recipe, size, focus)
-            if st == "bad" and f2.key == f.key:
-                fail.append((size, focus))
-    if not fail:
-        fail = [(tuple(f.root_size), f.root_focus)]
-    if rmode == "fixed":
-        cls = "fixed"
-    else:
-        cls = "tiny" if all(min(s) <= 3 for s, _ in fail) else "ordinary"
-    return cls
-
-
-TEXT_LEAVES = ("Text", "SelectableIcon", "Button", "CheckBox", "RadioButton", "Edit", "IntEdit", "IntegerEdit", "FloatEdit")
-TEXT_FIELDS = ("text", "label", "caption", "edit_text")
-
-
-def _kinds_tag(c):
-    try:
-        ks = T.kinds_of(c)
-    except Exception:  # noqa: BLE001
-        return "?"
-    return "".join(ch for ch, k in (("B", "box"), ("F", "flow"), ("X", "fixed")) if k in ks) or "-"
-
-
-STRUCTURAL = {
-    "Padding": lambda r: ["w:" + _wh(r["width"])],
-    "Filler": lambda r: ["h:" + _wh(r["height"])],
-    "Overlay": lambda r: ["w:pack" if r["width"] == "pack" else None],
-    "Columns": lambda r: ["boxcols" if r["box_columns"] else None],
-    "LineBox": lambda r: ["title" if r["title"] else None, ("off:" + "".join(r["off"])) if r.get("off") else None],
-    "Scrollable": lambda r: ["pos>0" if r.get("scrollpos") else None],
-    "BigText": lambda r: ["empty" if not r["text"] else None],
-    "BarGraph": lambda r: [f"seg{r['nseg']}", "satt" if r["satt"] else None, "bw" if r.get("bar_width") else None, "nobars" if not r["data"] else None],
-    "ProgressBar": lambda r: ["satt" if r["satt"] else None],
-    "GraphVScale": lambda r: ["nolabels" if not r["labels"] else None],
-    "Divider": lambda r: ["tb>0" if (r["top"] or r["bottom"]) else None],
-}
-
-
-def _wh(v):
-    return "relative" if isinstance(v, (list, tuple)) else ("given" if isinstance(v, int) else str(v))
-
-
-def shape_of(node, mode, smode, raising=False):
-    """abstract shape of the blamed node (mechanism level, no values).
-    Text-bearing leaves -> {primary character class of their texts: zero (zero-width character present) > wide (double-width
-    present) > plain;  'markup' if the text is attribute markup;  for plain text also 'aligned' (align != left) and
-    'ellipsis' (wrap == ellipsis), because for plain text only those options change the layout path}.
-    Other classes -> Class{structural option kinds}[flagged children]; the option kinds are omitted for raise kinds (the
-    raise site in the kind field names the mechanism).  Flagged children of Pile / Columns: a 'pack' / 'weight' child that
-    does not itself support the sizing mode the parent was rendered in (pack:!F = a PACK child that is not a flow widget
-    in a flow render), and box_columns children (+box).  Unflagged siblings are incidental and not listed.  A single-child
-    decoration lists '!B' / '!F' / '!X' when its child does not support the mode, '(empty)' for an empty container child."""
-    t = node["t"]
-    if t in TEXT_LEAVES:
-        cl = set()
-        for fld in TEXT_FIELDS:
-            if fld in node:
-                cl.update(re.split(r"[+:]", T.text_classes(node[fld], mode)))
-        prim = "zero" if "zero" in cl else ("wide" if "wide" in cl else ("plain" if cl & {"ascii", "sp", "latin1", "dec", "nl"} else "empty"))
-        opts = [prim]
-        if isinstance(node.get("text"), list):
-            opts = ["markup"] + (["empty-segment"] if any(len(T._txt(tx)) == 0 for _a, tx in node["text"]) else [])
-        if prim in ("plain", "empty"):
-            if node.get("align", "left") != "left":
-                opts.append("aligned")
-            if node.get("wrap", "space") == "ellipsis":
-                opts.append("ellipsis")
-        return "{" + ",".join(opts) + "}"
-    opts = [] if raising else [o for o in STRUCTURAL.get(t, lambda r: [])(node) if o]
-    s = t + ("{" + ",".join(opts) + "}" if opts else "")
-    cs = T.children(node)
-    if not cs:
-        return s + ("[]" if t in T.CONTAINER_CLASSES else "")
-    letter = {"box": "B", "flow": "F", "fixed": "X"}[smode]
-    flagged = []
-    for i, c in enumerate(cs):
-        tag = ""
-        if t in ("Pile", "Columns"):
-            tag = node["items"][i][0]
-            if t == "Columns" and i in (node.get("box_columns") or []):
-                tag = "+box"
-            elif tag in ("pack", "weight") and (need := "F" if (tag == "pack" and smode == "box") else letter) not in _kinds_tag(c):
-                tag = f"{tag}:!{need}"  # (a PACK child of a box Pile is rendered as a flow widget)
-            else:
-                tag = ""
-        elif t in ("Frame", "Overlay", "GridFlow", "ListBox"):
-            tag = ""
-        else:
-            tag = "" if letter in _kinds_tag(c) else f"!{letter}"
-        if c["t"] in T.CONTAINER_CLASSES and not T.children(c):
-            tag += "(empty)"
-        if tag:
-            flagged.append(tag)
-    flagged = sorted(set(flagged))
-    return s + ("[" + ",".join(flagged) + "]" if flagged else "")
-
-
-def signature(env, recipe, f, sclass):
-    node = T.node_at(recipe, f.path)
-    kind = f.kind + (f"@in:{f.inner}" if f.inner else "")
-    via = ""
-    if sclass == "after-history":
-        return f"C01|{f.cls}|{f.smode}|{kind}|*|after-history"
-    return f"C01|{f.cls}|{f.smode}|{kind}|{shape_of(node, env.mode, f.smode, f.kind.startswith("raise:"))}|{sclass}{via}"
+def signature(env, recipe, f, sclass=None):
+    """C01|<blamed class>|<failure kind + raise site or clause>|<size class>  -- one line per mechanism.
+    Everything in it is read off the raw finding (class whose method failed, clause / exception type + function that
+    raised, size class of the size that widget was handed), so it does not depend on how far the witness was shrunk."""
+    return f"C01|{f.cls}|{mech_kind(f)}|{f.bucket}"
 
 
 def prekey(env, recipe, f):
-    node = T.node_at(recipe, f.path)
-    return (f.key, T.describe(node, 1, True, env.mode), RC.size_bucket(f.size), f.focus)
+    return (signature(env, recipe, f), f.detail)
 
 
 def report(env, recipe, f, history=()):
     """classify one shrunk finding and hand it to ctx"""
     ctx = env.ctx
-    sclass = size_class(env, recipe, f) if not history else "after-history"
-    sig = signature(env, recipe, f, sclass)
+    sig = signature(env, recipe, f)
     wit = {"mode": env.mode, "recipe": recipe, "size": list(f.root_size), "focus": f.root_focus}
     if history:
         wit["history"] = [[list(s), fo] for s, fo in history]
@@ -560,25 +459,19 @@ def report(env, recipe, f, history=()):
     return sig
 
 
-def handle_finding(env, recipe, f, root_size, root_focus, history, seen_prekeys, max_per_prekey):
+def handle_finding(env, recipe, f, root_size, root_focus, seen_prekeys, max_per_prekey):
     ctx = env.ctx
     ctx.count("findings_raw")
-    ctx.count(f"finding_kind:{f.kind.split('@')[0]}")
+    ctx.count(f"finding_kind:{f.kind.split('@')[0].split('/')[0]}")
     f.root_size, f.root_focus = tuple(root_size), root_focus
     pk = prekey(env, recipe, f)
     seen_prekeys[pk] += 1
     if seen_prekeys[pk] > max_per_prekey:
-        ctx.count("findings_duplicate_prekey_not_reshrunk")
-        return None
-    # reproducible from a fresh build?
+        ctx.count("findings_same_mechanism_not_reshrunk")
+        return report(env, recipe, f)
+    # must reproduce from a fresh build (it was found on one; anything else is non-determinism in the harness)
     st, f2 = probe(env, recipe, root_size, root_focus)
     if not (st == "bad" and f2.key == f.key):
-        st, f3 = probe(env, recipe, root_size, root_focus, history)
-        if st == "bad" and f3.key == f.key:
-            ctx.count("findings_history_dependent")
-            f3.root_size, f3.root_focus = tuple(root_size), root_focus
-            f3.kind = f3.kind + "+history"
-            return report(env, recipe, f3, history)
         ctx.count("findings_not_reproducible")
         ctx.inconc(f"finding-not-reproducible:{f.key}")
         return None
@@ -615,32 +508,23 @@ def drive_tree(env, recipe, mode, sizes_for, seen_prekeys, max_per_prekey):
         if smode not in sz:
             continue
         ctx.count(f"root_mode:{smode}")
-        if smode != "fixed":
-            # fresh tree per sizing mode: later renders see the state earlier ones left behind
-            w, reg, _ = build_tree(env, recipe)
-        history = []
         for size in sizes_for(smode):
             for focus in FOCI:
+                # a fresh tree for every evaluation: the verdict for (tree, size, focus) never depends on earlier renders
+                w, reg, _ = build_tree(env, recipe)
                 st, f = evaluate(env, w, reg, size, focus)
                 if st == "skipped":
                     ctx.count("skipped_invalid")
                     ctx.case((mode, th, size, focus), nontrivial=False)
-                elif st == "ok":
-                    ctx.count("cases_judged")
-                    ctx.case((mode, th, size, focus))
-                else:
-                    ctx.count("cases_judged")
-                    ctx.case((mode, th, size, focus))
-                    k = (f.key, f.path)
-                    if k not in reported:  # one report per (tree, blamed node, kind)
-                        reported.add(k)
-                        handle_finding(env, recipe, f, size, focus, list(history), seen_prekeys, max_per_prekey)
-                        env.set_mode(mode)
-                    # the tree may be in a broken state after an exception: continue on a fresh one
-                    w, reg, _ = build_tree(env, recipe)
-                    history = []
                     continue
-                history.append((size, focus))
+                ctx.count("cases_judged")
+                ctx.case((mode, th, size, focus))
+                if st == "bad":
+                    k = (f.key, f.path)  # (the key contains the size class)
+                    if k not in reported:  # one report per (tree, blamed node, mechanism, size class)
+                        reported.add(k)
+                        handle_finding(env, recipe, f, size, focus, seen_prekeys, max_per_prekey)
+                        env.set_mode(mode)
 
 
 def flush_m1(env):
@@ -681,7 +565,7 @@ def run(ctx):
     rng = ctx.rng
     maxdepth = ctx.pick(3, 5)
     seen_prekeys = Counter()
-    max_per_prekey = ctx.pick(2, 3)
+    max_per_prekey = 2
     box_subset = ctx.pick(10, 49)
     max_trees = ctx.pick(110, 1200)  # op-count bound: reached before the time budget on an unloaded machine => same cases every run
 
